@@ -750,6 +750,7 @@ package log
 //@   ensures[C04:accounted] on ==> (tlen(enq) - tlen(old(enq))) + (c.discardCounter - old(c.discardCounter)) == 1 + (tlen(deq) - tlen(old(deq)))
 //@   ensures[C04,C06:what-is-enqueued-is-the-event] enq == old(enq) || enq == tsnoc(old(enq), 9, c.buf, e, typetag(*Event), "")
 //@   ensures[C04:block-never-drops] on && c.BufferFullPolicy == 0 ==> c.discardCounter == old(c.discardCounter) && enq != old(enq)
+//@   ensures[C06:discard-oldest-always-keeps-the-arriving-event] on && c.BufferFullPolicy == 2 ==> enq != old(enq)
 //@   ensures[C06:discard-policies-never-wait] c.BufferFullPolicy != 0 ==> blocked == old(blocked)
 //@   ensures[C03:event-handed-over] pooled[e]
 
@@ -759,6 +760,7 @@ package log
 //@   ensures[C04:accounted] (tlen(enq) - tlen(old(enq))) + (c.discardCounter - old(c.discardCounter)) == 1 + (tlen(deq) - tlen(old(deq)))
 //@   ensures[C12:queued-bytes-are-a-private-copy] enq == old(enq) || (enq == tsnoc(old(enq), 9, c.buf, tb(enq), typetag([]byte), "") && (len(b) == 0 || sref(as(mkiface(typetag([]byte), tb(enq)), []byte)) != sref(b)) && content(as(mkiface(typetag([]byte), tb(enq)), []byte)) == content(b))
 //@   ensures[C04:block-never-drops] c.BufferFullPolicy == 0 ==> c.discardCounter == old(c.discardCounter) && enq != old(enq)
+//@   ensures[C06:discard-oldest-always-keeps-the-arriving-write] c.BufferFullPolicy == 2 ==> enq != old(enq)
 //@   ensures[C06:discard-policies-never-wait] c.BufferFullPolicy != 0 ==> blocked == old(blocked)
 
 //@ func (*AsyncLogger).GetDiscardCounter
